@@ -256,6 +256,7 @@ def run(ctx):
     header_names_not_macro_expanded(ctx)
     directive_arguments_keep_literals(ctx)
     comment_scanner_reads_one_character_per_step(ctx)
+    has_include_agrees_with_include(ctx)
 
 
 def manifest_keys(ctx):
@@ -595,3 +596,59 @@ def comment_scanner_reads_one_character_per_step(ctx):
         ctx.ob("R09.10", "skip_c_comment|loop#%d|one-get-per-iteration" % li, ok, f.loc(lp),
                "get() calls on the paths round the loop: %s" % (sorted(counts) if counts else "no path returns to the test"))
     ctx.floor("R09.10", "scanning loops of skip_c_comment", n, 2)
+
+
+def has_include_agrees_with_include(ctx):
+    """R09.11: `#if __has_include(<f>)` keeps its group exactly when `#include <f>` would find f: both ask find_include(),
+    and both must ask it in the same way.  The only thing a caller decides is the `angle_quotes` argument: true for the
+    <...> spelling unless -noangles is in force.  (Seed S8-C09: the polarity of the _noangles test flipped in
+    expand_has_include_function only.)"""
+    db = ctx.db
+    ctx.rule("R09.11", "every caller of CPPPreprocessor::find_include passes a local flag that starts false and is set true only where _noangles is false and the operand's first character was compared with '<'")
+    n = 0
+    for f in db.functions:
+        for c in f.calls("CPPPreprocessor::find_include"):
+            n += 1
+            a = c.get("a") or []
+            r = local_ref(a[1]) if len(a) > 1 else None
+            inst = "%s|find_include|angle-argument" % f.name
+            if r is None:
+                ctx.ob("R09.11", inst, False, f.loc(c), "the angle_quotes argument is not a local flag")
+                continue
+            d = r["d"]
+            init_false = False
+            for y in f.walk():
+                if y.get("k") == "decls":
+                    for dd in y["d"]:
+                        if dd.get("d") == d and "init" in dd and const_int(dd["init"]) == 0:
+                            init_false = True
+            sets = [y for y in f.walk() if assigned_target(y) and (local_ref(assigned_target(y)[0]) or {}).get("d") == d]
+            noangles_false = G.edges_where(f, lambda atom, truth: (not truth) and (field_of(strip_casts(peel(atom))) or "").endswith("::_noangles"))
+
+            def is_lt(atom, truth):
+                ca = G.cmp_atom(atom)
+                if not ca:
+                    return False
+                op, x, y = ca
+                op = op if truth else G.NEG[op]
+                return op == "==" and any(const_int(z) == ord("<") for z in (x, y) if z is not None)
+            lt = G.edges_where(f, is_lt)
+            ok = init_false and bool(sets)
+            why = []
+            for y in sets:
+                v = const_int(assigned_target(y)[1])
+                if v == 0:
+                    continue
+                if v != 1:
+                    ok = False
+                    why.append("assigned something other than true/false")
+                    continue
+                if not (noangles_false and G.gated(f, y, noangles_false)):
+                    ok = False
+                    why.append("set true where _noangles may be true")
+                if not (lt and G.gated(f, y, lt)):
+                    ok = False
+                    why.append("set true without the operand's first character being '<'")
+            ctx.ob("R09.11", inst, ok, f.loc(c), "; ".join(why) if why else
+                   ("`%s` starts false and becomes true only for the <...> spelling with _noangles false" % r.get("n") if ok else "`%s` is not a flag that starts false and is set in the function" % r.get("n")))
+    ctx.floor("R09.11", "callers of find_include", n, 2)
